@@ -226,6 +226,71 @@ theorem b106_silent (e : Env) (c : CallView) (hc : e.call? = some c)
   simp only [hc]
   exact go_silent c.keywords h
 
+/-! ## B107: parameters are paired with their defaults from the right, positional-only parameters included -/
+
+/-- what decides B107 on one (parameter, default) pair: the default is a string literal and the parameter's name matches -/
+def B107Hit (p : Node × Option Node) : Bool :=
+  match p.2 with
+  | some v => v.isStrConst && isCandidate ((p.1.strAttr "arg").getD [])
+  | none => false
+
+theorem isStrConst_of_none (v : Node) (h : (v.constValue? == some Atom.none) = true) : v.isStrConst = false := by
+  have h' : v.constValue? = some Atom.none := by simpa using h
+  simp [Node.isStrConst, h']
+
+/-- the scan over the pairs reports iff SOME pair has a string-literal default under a matching name (a `None` default, any other default and a missing
+default are all passed over) -/
+theorem b107_go_any : ∀ l : List (Node × Option Node), b107.go l = .ok (if l.any B107Hit then some pwRaw else none)
+  | [] => rfl
+  | (key, none) :: rest => by
+    simp only [b107.go, List.any_cons, B107Hit, Bool.false_or]
+    exact b107_go_any rest
+  | (key, some v) :: rest => by
+    simp only [b107.go, List.any_cons, B107Hit]
+    by_cases hn : (v.constValue? == some Atom.none) = true
+    · simp only [hn, if_true, isStrConst_of_none v hn, Bool.false_and, Bool.false_or]
+      exact b107_go_any rest
+    · by_cases hh : (v.isStrConst && isCandidate ((key.strAttr "arg").getD [])) = true
+      · simp [hn, hh, pure, Except.pure]
+      · simp only [hn, Bool.false_eq_true, if_false, hh, Bool.false_or]
+        exact b107_go_any rest
+
+/-- **pairing**: with `k` parameters more than defaults, the first `k` parameters (positional-only ones first) have no default and the remaining ones take
+the defaults in order — CPython guarantees `len(defaults) ≤ len(posonlyargs) + len(args)` -/
+theorem zip_replicate_none_append (k : Nat) : ∀ (ps : List Node) (ds : List (Option Node)),
+    ps.zip (List.replicate k none ++ ds) = (ps.take k).map (fun p => (p, none)) ++ (ps.drop k).zip ds := by
+  induction k with
+  | zero => intro ps ds; simp
+  | succ k ih =>
+    intro ps ds
+    cases ps with
+    | nil => simp
+    | cons p ps => simp [List.replicate_succ, ih ps ds]
+
+theorem b107_pairing (params defaults : List Node) :
+    params.zip (List.replicate (params.length - defaults.length) none ++ defaults.map some) =
+      (params.take (params.length - defaults.length)).map (fun p => (p, none)) ++
+      (params.drop (params.length - defaults.length)).zip (defaults.map some) :=
+  zip_replicate_none_append _ params _
+
+/-- **B107**: reported iff some parameter — positional-only or not — has a string-literal default and a matching name, parameters and defaults being
+paired from the right (`b107_pairing`).  (The pinned commit paired `args.args` only: `def f(a='secret', /, password=None)` was reported for the wrong
+parameter; repaired by /repo 2542a3e.  The seeded change C16-m13 mis-paired them again by appending keyword-only defaults.) -/
+theorem b107_spec (e : Env) (args : Node) (ha : e.node.kid? "args" = some args) :
+    b107 e = .ok (if ((args.kidList "posonlyargs" ++ args.kidList "args").zip
+        (List.replicate ((args.kidList "posonlyargs" ++ args.kidList "args").length - (args.kidList "defaults").length) none ++ (args.kidList "defaults").map some)).any B107Hit
+      then some pwRaw else none) := by
+  unfold b107
+  simp only [ha, bind, Except.bind, pure, Except.pure]
+  exact b107_go_any _
+
+/-- a keyword-only parameter never takes part: B107 looks at positional parameters only (what the documentation of the check says) -/
+theorem b107_ignores_kwonly (e : Env) (args args' : Node) (ha : e.node.kid? "args" = some args)
+    (e' : Env) (ha' : e'.node.kid? "args" = some args')
+    (h1 : args'.kidList "posonlyargs" = args.kidList "posonlyargs") (h2 : args'.kidList "args" = args.kidList "args")
+    (h3 : args'.kidList "defaults" = args.kidList "defaults") : b107 e' = b107 e := by
+  rw [b107_spec e args ha, b107_spec e' args' ha', h1, h2, h3]
+
 /-! ## instances over the generated defaults -/
 
 /-- the generated default temp-directory list contains the published one -/
